@@ -183,7 +183,8 @@ func canon(c *harness.Ctx) {
 				simrt.Order = c.C.Choose
 				// the same batch keys, supplied in another order
 				if isBatchKeyed(call.Method) {
-					ka := args[len(args)-1]
+					ki := payloadIndex(args)
+					ka := args[ki]
 					if ka.Kind() == reflect.Slice && ka.Len() > 1 {
 						n := reflect.MakeSlice(ka.Type(), ka.Len(), ka.Len())
 						reflect.Copy(n, ka)
@@ -193,7 +194,7 @@ func canon(c *harness.Ctx) {
 							n.Index(i).Set(reflect.ValueOf(b))
 							n.Index(j).Set(reflect.ValueOf(a))
 						}
-						args[len(args)-1] = n
+						args[ki] = n
 						c.Probe("batch-keys-reordered")
 					}
 				}
@@ -270,7 +271,17 @@ func poisoned(args []reflect.Value) ([]reflect.Value, bool) {
 		return nil, false
 	}
 	out := append([]reflect.Value(nil), args...)
-	last := deepCopy(args[len(args)-1])
+	li := len(args) - 1
+	for i := len(args) - 1; i >= 0; i-- {
+		// the entity (or entities) is what gets serialized into the body
+		if k := args[i].Kind(); k == reflect.Ptr || k == reflect.Slice || k == reflect.Map {
+			li = i
+			if k != reflect.Ptr || !strings.HasSuffix(args[i].Type().String(), "Params") {
+				break
+			}
+		}
+	}
+	last := deepCopy(args[li])
 	var poison func(v reflect.Value) bool
 	poison = func(v reflect.Value) bool {
 		switch v.Kind() {
@@ -310,7 +321,7 @@ func poisoned(args []reflect.Value) ([]reflect.Value, bool) {
 	if !poison(last) {
 		return nil, false
 	}
-	out[len(out)-1] = last
+	out[li] = last
 	return out, true
 }
 
